@@ -1,5 +1,5 @@
 (* C04 driver.
-   (journal ID ITEM ...)   ITEM = TEXTHEX, the amount of a posting as written, in file order, or (fmt TEXTHEX): a format directive
+   (journal ID ITEM ...) | (journal-dc ID ITEM ...): the same journal read and reported with --decimal-comma   ITEM = TEXTHEX, the amount of a posting as written, in file order, or (fmt TEXTHEX): a format directive
    -> for every amount i: "ID i <hex printed text>|<rational>|<hex text of a/7>|<rational of a/7>|<hex text of a*0.333>|<rational>|<hex report-column text>"
       or "ID i E" when the reader rejects the text. *)
 let pow10 p = let rec go acc k = if k = 0 then acc else go (h_mul acc z10) (k - 1) in go (z_of_int 1) (int_of_z p)
@@ -13,7 +13,8 @@ let no_style = { st_suffixed = false; st_separated = false; st_thousands = false
 
 let handle line =
   match parse_sexp line with
-  | L (A "journal" :: A id :: texts) ->
+  | L (A kind :: A id :: texts) when kind = "journal" || kind = "journal-dc" ->
+    let dcd = (kind = "journal-dc") in      (* commodity_t::decimal_comma_by_default *)
     (* an item is the text of a posting amount, or (fmt TEXT): a `commodity SYM / format TEXT` directive at that place *)
     let items = List.map (function L [A "fmt"; t] -> (true, str_of_hex (atom t)) | t -> (false, str_of_hex (atom t))) texts in
     let pool : (string * finfo) list ref = ref [] in
@@ -26,7 +27,7 @@ let handle line =
         | Ok ap ->
           let sym = string_of_str ap.ap_sym in
           let dc0 = (lookup sym).ci_style.st_decimal_comma in
-          (match parse_amount_text dc0 t with
+          (match parse_amount_text_session dcd dc0 t with
            | Err _ -> (is_fmt, None)
            | Ok pa ->
              if sym <> "" then begin
@@ -44,13 +45,13 @@ let handle line =
           let a = { aq = h_qred (h_qmake pa.pa_num (pow10 pa.pa_prec)); aprec = pa.pa_prec; akeep = false;
                     acomm = (if sym = "" then None else Some pa.pa_sym) } in
           let st = if sym = "" then no_style else (lookup sym).ci_style in
-          let txt x = hex_of_str (amount_text cp st x) in
+          let txt x = hex_of_str (amount_text_session dcd cp st x) in
           let seven = { aq = h_qmake (z_of_int 7) (z_of_int 1); aprec = Z0; akeep = false; acomm = None } in
           let third = { aq = h_qmake (z_of_int 333) (z_of_int 1000); aprec = z_of_int 3; akeep = false; acomm = None } in
           let d7 = (match amt_div cp a seven with Ok x -> x | Err _ -> a) in
           let m3 = amt_mul cp a third in
           Printf.sprintf "%s %d %s|%s|%s|%s|%s|%s|%s" id i (txt a) (show_rat a) (txt d7) (show_rat d7) (txt m3) (show_rat m3)
-            (hex_of_str (value_column_text cp st a)))
+            (hex_of_str (value_column_text_session dcd cp st a)))
       parsed
   | _ -> failwith "case"
 
